@@ -58,6 +58,9 @@ class Node(BaseComponent):
         """
         super().__init__(channel=channel, **kwargs)
 
+        # the connections of this node (not shared with other Node instances)
+        self.__peers = {}
+
         if port is not None:
             self.server = Server(port, channel=channel, **kwargs).register(self)
         else:
@@ -218,6 +221,9 @@ class Node(BaseComponent):
         result = yield self.fire(remote(hello())), 'peer_test')
         print(result.value)``
         """
-        node = self.__peers[connection_name]
+        node = self.__peers.get(connection_name)
+        if node is None:
+            # not a connection of this node (every Node sees every remote event)
+            return None
         remote_event.channels = (channel,) if channel is not None else event.channels
         return node.send(remote_event)
